@@ -63,7 +63,7 @@ func specForTree(b *ast.Body, depth int) hcldec.Spec {
 }
 
 type c17op struct {
-	kind   int // 0 Value 1 Variables 2 Content 3 PartialContent 4 Decode
+	kind   int // 0 Value 1 Variables 2 Content 3 PartialContent 4 Decode 5 PartialContent(one type) then PartialContent(shared schema) on the remainder
 	target int // index of the expression
 	yield  int // number of Gosched calls before the op
 }
@@ -103,11 +103,11 @@ func traversalsDump(trs []hcl.Traversal) string {
 
 func TestC17_Concurrent(t *testing.T) {
 	hx.Run(t, "C17", "Concurrent", 1500,
-		"a parsed artefact (native expression rich in splats, native body, JSON body, dynblock-expanded body) shared by 2..16 goroutines, each with its own EvalContext (optionally children of one shared parent) holding different values of the same types, each running a random sequence of Value / Variables / Content / PartialContent / hcldec.Decode with random yields, under GOMAXPROCS 1/2/16, built with -race; oracle: no race report, and every concurrent result equals the result of the same call executed alone beforehand; non-trivial = >=2 goroutines evaluate the same splat-bearing expression at overlapping times (atomic in-flight counter); distinct by (artefact, plan)",
+		"a parsed artefact (native expression rich in splats, native body, JSON body, dynblock-expanded body) shared by 2..16 goroutines, each with its own EvalContext (optionally children of one shared parent) holding different values of the same types, each running a random sequence of Value / Variables / Content / PartialContent / hcldec.Decode / (dynblock bodies) PartialContent of one block type followed by PartialContent of the remainder with a schema object shared by all goroutines with random yields, under GOMAXPROCS 1/2/16, built with -race; oracle: no race report, and every concurrent result equals the result of the same call executed alone beforehand; non-trivial = >=2 goroutines evaluate the same splat-bearing expression at overlapping times (atomic in-flight counter); distinct by (artefact, plan)",
 		func(c *hx.Case) {
 			t := c.T
 			base := gen.DrawScope(t, gen.ScopeOpts{Nulls: 14})
-			kind := rapid.SampledFrom([]int{0, 0, 0, 1, 1, 2, 3}).Draw(t, "artefact")
+			kind := rapid.SampledFrom([]int{0, 0, 0, 1, 1, 2, 3, 3}).Draw(t, "artefact")
 			var exprs []hcl.Expression
 			var body hcl.Body
 			var spec hcldec.Spec
@@ -178,6 +178,10 @@ func TestC17_Concurrent(t *testing.T) {
 					if kind == 3 {
 						c.Class("artefact_dynblock_body")
 						body = dynblock.Expand(body, evalCtx(base))
+						// the shared schema has spare capacity, as a schema built with append has
+						blocks := make([]hcl.BlockHeaderSchema, len(schema.Blocks), len(schema.Blocks)+4)
+						copy(blocks, schema.Blocks)
+						schema.Blocks = blocks
 					} else {
 						c.Class("artefact_native_body")
 					}
@@ -228,6 +232,11 @@ func TestC17_Concurrent(t *testing.T) {
 						op.target = rapid.IntRange(0, len(exprs)-1).Draw(t, "target")
 					} else if body != nil {
 						op.kind = rapid.IntRange(2, 4).Draw(t, "bodyop")
+						if kind == 3 && len(schema.Blocks) > 0 && rapid.Bool().Draw(t, "remain_op") {
+							// chained processing of a dynblock body with a schema object shared by all goroutines
+							op.kind = 5
+							op.target = rapid.IntRange(0, len(schema.Blocks)-1).Draw(t, "first_type")
+						}
 					}
 					plans[gi] = append(plans[gi], op)
 				}
@@ -260,6 +269,14 @@ func TestC17_Concurrent(t *testing.T) {
 						extra = strings.Join(ns, ",")
 					}
 					return c17result{val: contentDump(cnt), diags: normDiags(d), extra: extra}
+				case 5:
+					first := &hcl.BodySchema{Blocks: []hcl.BlockHeaderSchema{schema.Blocks[op.target]}}
+					c1, rest, d1 := body.PartialContent(first)
+					if rest == nil {
+						return c17result{val: contentDump(c1), diags: normDiags(d1), extra: "no remainder"}
+					}
+					c2, _, d2 := rest.PartialContent(schema)
+					return c17result{val: contentDump(c1) + " THEN " + contentDump(c2), diags: normDiags(d1) + "\n" + normDiags(d2)}
 				default:
 					v, d := hcldec.Decode(body, spec, ctxs[gi])
 					// ObjectSpec is a Go map: the order of diagnostics is not deterministic even
